@@ -18,6 +18,19 @@ from pyvc.source import ClassInfo, ExternalRef, FuncInfo, ModuleInfo, Repo, Unsu
 # ----------------------------------------------------------------------------------------------------------- values
 
 
+def _z3_truth(self):
+    """z3py lets an equality be used as a Python truth value (structural comparison of the two sides); in a contract
+    `formula and x` would then silently drop x.  Only the constants true / false may be used that way here."""
+    if z3.is_true(self):
+        return True
+    if z3.is_false(self):
+        return False
+    raise TypeError("z3 formula used as a Python truth value: %s" % self)
+
+
+z3.AstRef.__bool__ = _z3_truth
+
+
 class SBool:
     __slots__ = ("e",)
 
